@@ -7,4 +7,5 @@ import Oas3Model.Props.C07
 import Oas3Model.Props.C08
 import Oas3Model.Props.C09
 import Oas3Model.Props.C10
+import Oas3Model.Props.C11
 import Oas3Model.Props.C20
